@@ -167,8 +167,8 @@ THEOREMS = [
     # reset_units with named working units: every chosen unit is 1
     'C09.reset_named_units_are_one', 'C09.reset_named_units_parse_one', 'C09.parse_name', 'C09.table_names_valid',
     'C09.reset_refuses_five', 'C09.reset_over_determined_ignores_energy',
-    # set_literal = numeral value times parsed factor
-    'C09.set_literal_value_unit', 'C09.set_literal_eq_set_in_units',
+    # set_literal = literal value (number, nested list / tuple) times parsed factor
+    'C09.set_literal_value_unit', 'C09.set_literal_scalar', 'C09.set_literal_eq_set_in_units',
     # sessions: a call is answered from the scalings the last state-changing call left, whatever came before
     'C09.session_reply_last', 'C09.session_state_after_reset', 'C09.session_state_after_rebase',
     'C09.session_state_after_failed_reset', 'C09.session_chosen_units_one', 'C09.session_conversion_invariant',
@@ -1000,23 +1000,56 @@ def _corr_convert(ctx, rng, uc, cfg, n):
     lines, metas = [], []
     for it in range(n):
         term, e = gen_literal(rng, t, vals)
-        try:
-            r = _timed(uc.set_literal, term)
-            impl = float(r) if np.ndim(r) == 0 else 'shape'
-        except Exception:  # noqa
-            impl = 'err'
-        lines.append('setlit ' + _cps(term))
+        impl = _real_setlit(uc, term)
+        lines.append('setlitv ' + _cps(term))
         metas.append((term, impl, e))
     outs = ctx.driver.ask_many(lines)
     for (term, impl, e), out in zip(metas, outs):
         ctx.stats.case('set_literal', (_cfg_str(cfg), term), nontrivial=not out.startswith('err:'),
-                       sample={'cfg': _cfg_str(cfg), 'term': term, 'impl': impl})
-        msg = _cmp_val(impl, out, lambda mv, e=e: Fraction(_tol(mv, e + 2)))
+                       sample={'cfg': _cfg_str(cfg), 'term': term, 'impl': impl if impl == 'err' else [list(impl[0]), impl[1]]})
+        msg = _cmp_setlit(impl, out, lambda mv, e=e: Fraction(_tol(mv, e + 2)))
         if msg:
             ctx.disagree('set_literal', f'uc.set_literal({term!r}) after {_cfg_str(cfg)}: {msg}',
                          {'op': 'setlit', 'cfg': cfg, 'term': term})
 
 
+def _real_setlit(uc, term):
+    """-> (shape, flat values) of the array uc.set_literal returns, or 'err'."""
+    np = _np()
+    try:
+        r = np.asarray(_timed(uc.set_literal, term))
+        if r.dtype.kind not in 'fiu' or not np.isfinite(r).all():
+            return 'err'
+        return tuple(r.shape), [x for x in r.ravel().tolist()]
+    except Exception:  # noqa
+        return 'err'
+
+
+def _cmp_setlit(impl, out, tol_of):
+    """impl: (shape, values) or 'err'; out: reply of the driver op setlitv (`shape | values`). -> message or None"""
+    if out == 'err:size':
+        return None
+    merr = out.startswith('err:')
+    if impl == 'err' or merr:
+        if (impl == 'err') != merr:
+            return f'implementation {"raises" if impl == "err" else "returns " + repr(impl)}, model {"has no value" if merr else "returns " + out[:80]}'
+        return None
+    sh, _, vs = out.partition('|')
+    mshape = () if sh.strip() == '-' else tuple(int(x) for x in sh.strip().split(','))
+    mv = cm.unfrs(vs)
+    if mshape != impl[0] or len(mv) != len(impl[1]):
+        return f'implementation returns shape {impl[0]}, model shape {mshape}'
+    for a, b in zip(impl[1], mv):
+        if abs(Fraction(a) - b) > tol_of(b):
+            return f'implementation {impl[1]} != model {[_f(x) for x in mv]}'
+    return None
+
+
+# values as python writes them: numbers (a leading-zero integer is refused by python, `+` is a sign), lists and tuples,
+# nested, with blanks, trailing comma, empty; refused: ragged, unbalanced, missing comma
+PY_VALUE_LITS = ['1, 2', '1,', '1, 2,', '[1], [2]', '(1, 2), 3', ',', '1) (2', '010', '007', '00', '+2', '+.5', '-0', '00.5', '01e1', '-08', '1.5E+2', '[]', '()', '[1, 2', '[1,,2]',
+                 '[[1, 2], [3]]', '(1, 2]', '[1 2]', '((1, 2), (3, 4))', '[010]', '[1, [2]]', '[1, 2,]', '(3)', '((3))',
+                 '[(1.5)]', '[+1, -2]', '[[]]', '[[], []]', '(,)', '[,1]', '1, 2', '[1](2)', '+-2', '--2', '[ ]', '( 2 , )']
 VALUE_LITS = ['1.124', '2', '10', '0.5', '-3', '1e3', '2.5e-3', '-1.5E2', '7.', '.5', '12345.678', '0', '1e-21', '100',
               '3.0', '-0.25', '6.02e23', '0.001']
 
@@ -1026,6 +1059,8 @@ def gen_literal(rng, t, vals):
     -> (term, rounding bound) """
     value = rng.choice(VALUE_LITS)
     r = rng.random()
+    if rng.random() < 0.35:
+        value = rng.choice(LIST_LITS + PY_VALUE_LITS)
     if r < 0.12:
         return rng.choice([' ', '']) + value + rng.choice([' ', '', '  ']), 2.0
     if r < 0.2:
@@ -1481,7 +1516,7 @@ class _Session:
         out = []
         if len(self.terms) < 12:
             for it in rng.sample(self.pool.items, 12):
-                value = rng.choice(VALUE_LITS)
+                value = rng.choice(VALUE_LITS + LIST_LITS[:6])
                 self.terms.setdefault(value + ' ' + it[0].strip(), (value, it))
         for term, (value, it) in list(self.terms.items())[:n]:
             out.append((term, value, it))
@@ -1552,14 +1587,16 @@ class _Session:
         for term, value, it in self._literal_terms(rng, 6, ok):
             ctx.stats.case('oracle:session-set_literal', (len(self.trail), term))
             v, e = ok[it[0]]
-            want = lit_value(value) * v
+            val = read_literal(value)
+            want = [x * v for x in _flat(val)]
             try:
-                gotv = float(_timed(uc.set_literal, term))
+                r = np.asarray(_timed(uc.set_literal, term))
+                gotv = r.ravel().tolist() if r.shape == _shape_of(val) else f'an array of shape {r.shape}'
             except Exception as ex:  # noqa
                 gotv = f'{type(ex).__name__}: {ex}'
-            if isinstance(gotv, str) or not abs(Fraction(gotv) - want) <= Fraction(_tol(want, e + 2)):
+            if isinstance(gotv, str) or any(not abs(Fraction(g) - w) <= Fraction(_tol(w, e + 2)) for g, w in zip(gotv, want)):
                 self._viol('session:set_literal', f'uc.set_literal({term!r}) = {gotv!r} after {_cfg_str_any(cfg)}; '
-                           f'{value} [{it[0]}] is {float(want)!r}', [term])
+                           f'{value} [{it[0]}] is {[float(w) for w in want]!r}', [term])
 
     # -- the session model (driver ops sreset / scales / unit / parseu / conv / setlit) ------------------------------
     def _model(self, cfg, rng, want_sc, got_sc, real, vals, n_fresh, n_pairs, np):
@@ -1651,15 +1688,10 @@ class _Session:
                           [s1, s2])
         # set_literal
         terms = self._literal_terms(rng, 6, ok)
-        outs = ctx.driver.ask_many(['setlit ' + _cps(term) for term, _, _ in terms])
+        outs = ctx.driver.ask_many(['setlitv ' + _cps(term) for term, _, _ in terms])
         for (term, value, it), out in zip(terms, outs):
             ctx.stats.case('corr:session-set_literal', (len(self.trail), term))
-            try:
-                r = _timed(uc.set_literal, term)
-                impl = float(r) if np.ndim(r) == 0 else 'err'
-            except Exception:  # noqa
-                impl = 'err'
-            msg = _cmp_val(impl, out, lambda mv, it=it: bound(mv, it[4] + 2, it[2]))
+            msg = _cmp_setlit(_real_setlit(uc, term), out, lambda mv, it=it: bound(mv, it[4] + 2, it[2]))
             if msg:
                 self._dis('session:set_literal', f'uc.set_literal({term!r}) after {_cfg_str_any(cfg)}: {msg}', [term])
 
